@@ -69,7 +69,7 @@ theorem rcpt_refuse_mk (s : S) (arg : Bytes) (code : Nat) (enh : Enh) (text : St
     exactly the decoded mailbox and options (`mailCall`: the call is the first thing it does); or answers with one 5xx reply
     and calls nothing; or, when there is no session object, panics having called and written nothing. -/
 theorem C11_mail_exact_or_refused (s : S) (arg : Bytes) :
-    (∃ frm o bm id, mailDecode s.cfg arg = some (frm, o, bm) ∧ s.c.session = some id ∧
+    (∃ frm o bm id, mailDecode (effCfg s) arg = some (frm, o, bm) ∧ s.c.session = some id ∧
         handleMail s arg = mailCall (setBinarymime s bm) id frm o)
     ∨ (∃ code enh text s', 500 ≤ code ∧ code ≤ 599 ∧ enh.a = 5 ∧ SameObs s' s ∧
         handleMail s arg = (reply s' code enh text, false))
@@ -88,7 +88,7 @@ theorem C11_mail_exact_or_refused (s : S) (arg : Bytes) :
   cases ha : parseArgs rest with
   | none => exact Or.inr (Or.inl (mail_refuse_mk s s arg 501 ⟨5, 5, 4⟩ "Unable to parse MAIL ESMTP parameters" (by decide) (SameObs.rfl' s) (by simp only [handleMail, h1, h2, hc, hp, ha, Bool.false_eq_true, if_false])))
   | some args =>
-  cases hm : mailParams s.cfg args {} false with
+  cases hm : mailParams (effCfg s) args {} false with
   | refuse code enh text =>
     obtain ⟨k1, k2, k3⟩ := mailParams_refuse_5xx _ _ _ _ _ _ _ hm
     exact Or.inr (Or.inl ⟨code, enh, text, setBinarymime s false, k1, k2, k3, ⟨rfl, rfl, rfl, rfl⟩,
@@ -105,7 +105,7 @@ theorem C11_mail_exact_or_refused (s : S) (arg : Bytes) :
 /-- **C11_mail_refused_before_backend.**  The refusal half, as the property states it: when the argument does not decode —
     no `FROM:`, a malformed path, unparsable parameters, or a parameter that is unknown, malformed or belongs to a disabled
     extension — the answer is a 5xx reply and the backend is not called, whatever state the connection is in. -/
-theorem C11_mail_refused_before_backend (s : S) (arg : Bytes) (h : mailDecode s.cfg arg = none) :
+theorem C11_mail_refused_before_backend (s : S) (arg : Bytes) (h : mailDecode (effCfg s) arg = none) :
     ∃ code enh text s', 500 ≤ code ∧ code ≤ 599 ∧ enh.a = 5 ∧ SameObs s' s ∧ handleMail s arg = (reply s' code enh text, false) := by
   by_cases h1 : s.c.helo.isEmpty = true
   · exact (mail_refuse_mk s s arg 502 ⟨5, 5, 1⟩ "Please introduce yourself first." (by decide) (SameObs.rfl' s) (by simp only [handleMail, h1, if_true]))
@@ -121,7 +121,7 @@ theorem C11_mail_refused_before_backend (s : S) (arg : Bytes) (h : mailDecode s.
   cases ha : parseArgs rest with
   | none => exact (mail_refuse_mk s s arg 501 ⟨5, 5, 4⟩ "Unable to parse MAIL ESMTP parameters" (by decide) (SameObs.rfl' s) (by simp only [handleMail, h1, h2, hc, hp, ha, Bool.false_eq_true, if_false]))
   | some args =>
-  cases hm : mailParams s.cfg args {} false with
+  cases hm : mailParams (effCfg s) args {} false with
   | refuse code enh text =>
     obtain ⟨k1, k2, k3⟩ := mailParams_refuse_5xx _ _ _ _ _ _ _ hm
     exact ⟨code, enh, text, setBinarymime s false, k1, k2, k3, ⟨rfl, rfl, rfl, rfl⟩,
